@@ -253,6 +253,19 @@ fn serializer_scenario_inner(l: &mut L1, seed: u64, rng: &mut Rng, pw_r: u32, ho
     // through a file (with faults) or directly
     SimClock::set(hour_r as i64 * 3600 + l.ch.choose("reader_minute", 3600) as i64);
     let via_file = l.ch.chance("via_file", 400);
+    let via_cmd = !via_file && l.ch.chance("via_command", 40);
+    if via_cmd {
+        // no age limit on this path: every beacon of the reader's password counts
+        expected.clear();
+        per_beacon.clear();
+        for p in &placed {
+            if password(p.pw) == password(pw_r) {
+                let n = normalise(&p.addrs);
+                expected.extend(n.iter().copied());
+                per_beacon.push(n);
+            }
+        }
+    }
     let mut text_seen = text.clone();
     let mut torn = false;
     let got: Result<Vec<SocketAddr>, String> = if via_file {
@@ -296,6 +309,35 @@ fn serializer_scenario_inner(l: &mut L1, seed: u64, rng: &mut Rng, pw_r: u32, ho
             Ok(Err(_)) => Ok(vec![]),
             Err(p) => Err(p),
         }
+    } else if via_cmd {
+        // through a command, as `beacon_load = "|cmd"` does: the only place where the program under test starts a
+        // real thread and a real process; the harness waits for the result, so the outcome does not depend on their
+        // timing. The command's output is decoded without an age limit (the worker thread has no simulated clock).
+        let dir = std::path::PathBuf::from(format!("/dev/shm/vpncloud-verif-{}-{:x}-cmd", std::process::id(), seed));
+        let _ = std::fs::create_dir_all(&dir);
+        let path = dir.join("beacon.txt");
+        let _ = std::fs::write(&path, text.as_bytes());
+        l.count("c17_loaded_through_a_command");
+        let r = match ser_r.read_from_cmd(&format!("cat '{}'", path.display()), None) {
+            Ok(()) => {
+                let started = std::time::Instant::now();
+                let mut got = None;
+                while started.elapsed().as_secs() < 600 {
+                    if let Some(v) = ser_r.get_cmd_results() {
+                        got = Some(v);
+                        break;
+                    }
+                    std::thread::sleep(std::time::Duration::from_millis(1));
+                }
+                match got {
+                    Some(v) => Ok(v),
+                    None => Err("the beacon command did not deliver a result within 600 s".to_string()),
+                }
+            }
+            Err(e) => Err(format!("the beacon command could not be started: {}", e)),
+        };
+        let _ = std::fs::remove_dir_all(&dir);
+        r
     } else {
         io::guarded(|| ser_r.decode(&text, Some(ttl)))
     };
